@@ -43,6 +43,7 @@ import (
 	"mellium.im/xmlstream"
 	"mellium.im/xmpp"
 	"mellium.im/xmpp/form"
+	"mellium.im/xmpp/internal/verifhook"
 	"mellium.im/xmpp/jid"
 	"mellium.im/xmpp/mux"
 	"mellium.im/xmpp/stanza"
@@ -224,6 +225,7 @@ func (c *Client) handlePresence(p stanza.Presence, r xmlstream.TokenReadEncoder)
 			}
 			select {
 			case jc.j <- p.From:
+				verifhook.Yield("muc.presence.handoff")
 				// The room confirmed the occupant JID: it is the one we hold from now
 				// on, the previous nickname (if any) is gone.
 				if old := channel.addr.String(); old != key && c.managed[old] == channel {
